@@ -71,9 +71,13 @@ def case_strategy(draw, tier="quick", mode=None, kinds=None):
     from props.c02 import with_sinks
     spec = draw(with_sinks(spec))
     nodes = spec["nodes"]
+    # a failing node below a one-to-many node: only in plain synchronous operation (an earlier
+    # piece failing later, inside an awaitable, after the last piece went through is the known
+    # C04 finding about flatten's metadata)
+    below_multi = mode is None and not specs.needs_loop(spec) and draw(st.integers(0, 3)) == 0
     cands = [i for i, nd in enumerate(nodes) if (nd["k"] in FN_KINDS or
              (nd["k"] == "partition" and nd["p"].get("key"))) and on_last_branch(spec, i)
-             and not has_multi_ancestor(spec, i)]
+             and (below_multi or not has_multi_ancestor(spec, i))]
     faults = {}
     if cands:
         for i in draw(st.lists(st.sampled_from(cands), min_size=1, max_size=2, unique=True)):
@@ -82,7 +86,8 @@ def case_strategy(draw, tier="quick", mode=None, kinds=None):
     events = draw(st.lists(st.tuples(st.just("e"), st.integers(0, len(ents) - 1),
                                      st.integers(0, 5)), min_size=2, max_size=16))
     needs = specs.needs_loop(spec)
-    m = mode or ("async" if needs else draw(st.sampled_from(["sync", "async"])))
+    m = mode or ("async" if needs else ("sync" if below_multi else
+                                         draw(st.sampled_from(["sync", "async"]))))
     sinks = [i for i, nd in enumerate(nodes) if nd["k"] == "sink"]
     if m == "async":
         cm = {str(i): draw(st.sampled_from(["sync", "fut", "coro"])) for i in sinks}
@@ -93,12 +98,18 @@ def case_strategy(draw, tier="quick", mode=None, kinds=None):
     else:
         cm = {str(i): "sync" for i in sinks}
     md = draw(st.lists(st.sampled_from([1, 1, 2, 0]), min_size=1, max_size=4))
+    # class of the injected user-function failures (plain synchronous operation only: inside a
+    # coroutine Python itself turns a StopIteration into a RuntimeError)
+    exc = draw(st.sampled_from(["Boom", "Boom", "BoomStop", "BoomKey", "BoomAttr", "BoomType"])) \
+        if m == "sync" else "Boom"
     return {"spec": spec, "events": [list(e) for e in events], "faults": faults, "mode": m,
-            "cmodes": cm, "md": md, "prelude": draw(st.sampled_from([False, "exception", "interrupt"]))
+            "cmodes": cm, "md": md, "exc": exc, "prelude": draw(st.sampled_from([False, "exception", "interrupt"]))
             if m in ("threaded", "sync") else False}
 
 
 def run_real(case):
+    from harness import elements
+    elements.set_fault_class(case.get("exc", "Boom"))
     spec = case["spec"]
     cm = {int(k): v for k, v in case["cmodes"].items()}
     faults = {int(k): set(v) for k, v in case["faults"].items()}
@@ -224,9 +235,21 @@ def execute(case):
     # ---- (b) state kept: every node's observed output is the documented function of its
     # observed input with the failing invocations removed ------------------------------------
     inputs, outputs = local.node_io(spec, log)
+    def above_a_fault(i):
+        stack, seen = list(faults), set()
+        while stack:
+            for p_ in nodes[stack.pop()]["u"]:
+                if p_ == i:
+                    return True
+                if p_ not in seen:
+                    seen.add(p_)
+                    stack.append(p_)
+        return False
     for i, nd in enumerate(nodes):
         if nd["k"] == "entry":
             continue
+        if nd["k"] in ("flatten", "zip_latest") and above_a_fault(i):
+            continue   # whether it goes on with the remaining pieces after a failure is not stated
         if nd["k"] == "sink":
             got = [canon(e[3]) for e in ev if e[0] == "cc" and e[1] == i]
             exp = [canon(a[1]) for a in inputs[i]]
@@ -266,7 +289,10 @@ def execute(case):
             stateful = True
     first = min(fired) if fired else None
     followed = first is not None and first < len(outcome) - 1
-    classes = ["mode:" + case["mode"]] + ["kind:" + k for k in set(kinds)]
+    classes = ["mode:" + case["mode"], "exception:" + case.get("exc", "Boom")] + \
+        ["kind:" + k for k in set(kinds)]
+    if any(has_multi_ancestor(spec, f) for f in faults):
+        classes.append("fault-below-one-to-many-node")
     if fired:
         classes.append("fault-fired")
     for k, mo in case["cmodes"].items():
@@ -275,12 +301,47 @@ def execute(case):
     return Result(v, nontrivial=bool(fired) and stateful and followed, classes=classes)
 
 
+@st.composite
+def below_flatten_case(draw, tier="quick"):
+    """entry -> batching node -> flatten -> 1-2 user-function nodes -> sink, plain synchronous
+    operation, failures of every exception class in the nodes below the flatten"""
+    nodes = [{"k": "entry", "u": [], "p": {}, "t": "E"}]
+    if draw(st.booleans()):
+        n = draw(st.integers(1, 3))
+        partial = draw(st.booleans())
+        nodes.append({"k": "sliding_window", "u": [0], "p": {"n": n, "partial": partial},
+                      "t": ["L", "E"] if partial else ["H", ["E"] * n]})
+    else:
+        nodes.append({"k": "map", "u": [0], "p": {"f": "pair"}, "t": ["H", ["E", "E"]]})
+    nodes.append({"k": "flatten", "u": [1], "p": {}, "t": "E"})
+    for _ in range(draw(st.integers(1, 2))):
+        k = draw(st.sampled_from(["map", "filter", "accumulate"]))
+        p = {"map": {"f": draw(st.sampled_from(["inc", "dbl"]))},
+             "filter": {"f": draw(st.sampled_from(["is_even", "lt3"]))},
+             "accumulate": {"f": "acc_add", "start": draw(st.integers(0, 5)), "rs": False,
+                            "ws": False}}[k]
+        nodes.append({"k": k, "u": [len(nodes) - 1], "p": p, "t": "E"})
+    nodes.append({"k": "sink", "u": [len(nodes) - 1], "p": {}, "t": None})
+    cands = list(range(3, len(nodes)))
+    faults = {}
+    for i in draw(st.lists(st.sampled_from(cands), min_size=1, max_size=2, unique=True)):
+        faults[str(i)] = sorted(draw(st.sets(st.integers(0, 7), min_size=1, max_size=3)))
+    events = draw(st.lists(st.tuples(st.just("e"), st.just(0), st.integers(0, 5)), min_size=2,
+                           max_size=12))
+    return {"spec": {"nodes": nodes, "fb": None}, "events": [list(e) for e in events],
+            "faults": faults, "mode": "sync", "cmodes": {str(len(nodes) - 1): "sync"},
+            "md": draw(st.lists(st.sampled_from([1, 1, 2, 0]), min_size=1, max_size=4)),
+            "exc": draw(st.sampled_from(["Boom", "BoomStop", "BoomKey", "BoomAttr", "BoomType"])),
+            "prelude": False}
+
+
 def threaded_strategy(tier="quick"):
     # no zip: a blocking emit against a starved zip input would legitimately block for ever
     return case_strategy(tier, mode="threaded", kinds=[k for k in KINDS if k != "zip"])
 
 
 PARTS = [Part("faults", case_strategy, execute, quick=2000, thorough=10000),
+         Part("below-flatten", below_flatten_case, execute, quick=300, thorough=3000),
          Part("threaded", threaded_strategy, execute, quick=40, thorough=150, shards=4,
               quick_shards=1, quick_factor=1),
          Part("coverage-guided:faults", None, execute, quick=0, thorough=0, shards=1,
